@@ -219,6 +219,12 @@ def replay_generic(rec):
             subprocess.run([sys.executable] + ([flag] if flag else []) + ['-c', code])
         return 1
     common.bind_repo()
+    from vlib import callhelpers
+    with callhelpers.table_dir():
+        return _replay_history(c)
+
+
+def _replay_history(c):
     calls = [(_ev(h[0]), _ev(h[1]), _ev(h[2])) for h in c['history']]
     for x in calls:
         resolve(x[0])
